@@ -1,23 +1,13 @@
-"""Per-property configuration of the check driver."""
+"""Per-property configuration of the check driver: one fragment per property in lib/props.d/."""
+import glob, importlib.util, os, sys
 
-COMMON_TRUSTED = [
-    "translators and correspondence harness (/verif/harness, built from /repo with -tags verif)",
-    "Go toolchain go1.23.5 as the reference for Go semantics",
-]
+_here = os.path.dirname(os.path.abspath(__file__))
+sys.path.insert(0, _here)
+from common_cfg import COMMON_TRUSTED  # noqa: E402,F401
 
-PROPS = {
-    "C17": dict(
-        harness="c17",
-        translators=["tr-build"],
-        model_targets=["Build/Cases.vo"],
-        proof_targets=["Props/C17.vo"],
-        props="Props/C17.v",
-        trusted=COMMON_TRUSTED + ["go/build.Context.MatchFile (CgoEnabled=false) as reference for file selection",
-                                  "hand-written model Build/Model.v of interp/build.go, tied by function-level correspondence (verif exports) and by the regenerated OS/arch lists"],
-        level_text="Coq theorems (unbounded: all '+build' headers over the plain vocabulary, all word lists of file names in the agreement region; refutation witnesses elsewhere) about executable models of interp/build.go (Y) and of go/build (G); Y is tied to the source on every run by regenerated OS/arch tables and by a function-level correspondence (skipFile/buildLineOk/buildOk through verif exports, plus EvalPath on a MapFS) evaluated inside Coq; G is validated against go/build.MatchFile.",
-        level_note="Trusted: Coq kernel + vm_compute, no axioms; translator tr-build; harness; go/build as the reference. interp/build.go is modelled by hand and tied by correspondence (about 40k cases per quick run including an exhaustive file-name enumeration).",
-        technique="Coq proof by induction over header structure + regenerated tables + model/implementation correspondence evaluated in Coq",
-        assumptions=["go/ast CommentGroup.Text is modelled for // comments only; block comments are outside the model",
-                     "release tags go1.N are validated by correspondence, not covered by C17_plusbuild_partial"],
-    ),
-}
+PROPS = {}
+for _f in sorted(glob.glob(os.path.join(_here, "props.d", "*.py"))):
+    _spec = importlib.util.spec_from_file_location("props_" + os.path.basename(_f)[:-3], _f)
+    _m = importlib.util.module_from_spec(_spec)
+    _spec.loader.exec_module(_m)
+    PROPS[_m.CFG["id"]] = _m.CFG
